@@ -208,8 +208,8 @@ def run(cx):
     pl = [l for l in enclosing_loops(w) if isinstance(l, ast.For) and l is not owner_loop]
     ok = ok and len(pl) == 1 and norm(pl[0].iter) in (f"{params(first)[1]}[{owner}]",)
     cx.ob("R02b", w, ok, "all productions of the owner are walked" if ok else "FIRST does not walk every production of the owning symbol", stmt="FIRST walk: productions")
-    _breaks_justified(cx, "R02b", w, s, nullables, terminals, "FIRST")
-    _fixpoint_loop(cx, "R02b", first, owner_loop, "FIRST")
+    cx.guard(_breaks_justified, cx, "R02b", w, s, nullables, terminals, "FIRST")
+    cx.guard(_fixpoint_loop, cx, "R02b", first, owner_loop, "FIRST")
 
     # ------------------------------------------------------------------ R02c
     nullables = params(follow)[3]
@@ -245,7 +245,7 @@ def run(cx):
             src = norm(m.value) if isinstance(m, ast.AugAssign) else norm(m.value.args[0])
             ok = src == f"{fsets_p}[{nxt}]" and (f"{nxt} in {terminals}", False) in fsm
             cx.ob("R02c", m, ok, "FIRST of a following non-terminal is added" if ok else f"FOLLOW merges {src} (expected FIRST of the following symbol)")
-    _breaks_justified(cx, "R02c", iw, nxt, nullables, terminals, "FOLLOW")
+    cx.guard(_breaks_justified, cx, "R02c", iw, nxt, nullables, terminals, "FOLLOW")
     # terminals have no FOLLOW: skipped
     sk = any(isinstance(s, ast.If) and norm(s.test) == f"{cur} in {terminals}" and any(isinstance(x, ast.Continue) for x in s.body) for s in pos_loop.body)
     cx.ob("R02c", pos_loop, sk, "terminals are skipped as current symbol" if sk else "terminal symbols are not skipped in the FOLLOW position loop", stmt="FOLLOW: skip terminals")
@@ -303,7 +303,7 @@ def run(cx):
     ms = [m for m in _merges(w, [acc]) if not in_loop_orelse(m, w)]
     okm = _must_merge(w, table, ms, s)
     cx.ob("R02d", w, okm, "every visited symbol contributes before the walk leaves it" if okm else "a visited symbol can be skipped without contributing to the predict set", stmt="table walk: w2")
-    _breaks_justified(cx, "R02d", w, s, nullables, terminals, "predict")
+    cx.guard(_breaks_justified, cx, "R02d", w, s, nullables, terminals, "predict")
     first_name = None
     for m in ms:
         fsm = {(norm(e), pol) for e, pol in facts(m)}
